@@ -9,10 +9,32 @@ package telegram
 // генератор не понимает что такое !X (и не должен понимать 100%)
 
 import (
+	"reflect"
+
 	"github.com/pkg/errors"
 
 	"github.com/xelaj/mtproto/internal/encoding/tl"
 )
+
+// answerAsObject returns the answer to a generic wrapper (query:!X = X) as tl.Object. MakeRequest hands out
+// Bool and Null answers as native values (see tl.UnwrapNativeTypes), which are not objects, so they are
+// wrapped back. Anything else that is not an object (vectors need hints to the decoder, which a generic
+// wrapper can't give) is returned as error instead of panic.
+func answerAsObject(data any) (tl.Object, error) {
+	switch v := data.(type) {
+	case tl.Object:
+		return v, nil
+	case bool:
+		if v {
+			return &tl.PseudoTrue{}, nil
+		}
+		return &tl.PseudoFalse{}, nil
+	case nil:
+		return &tl.PseudoNil{}, nil
+	default:
+		return nil, errors.New("got response which is not an object: " + reflect.TypeOf(data).String())
+	}
+}
 
 //invokeAfterMsg#cb9f372d {X:Type} msg_id:long query:!X = X;
 //invokeAfterMsgs#3dc4b4f0 {X:Type} msg_ids:Vector<long> query:!X = X;
@@ -44,7 +66,7 @@ func (c *Client) InitConnection(params *InitConnectionParams) (tl.Object, error)
 		return nil, errors.Wrap(err, "sending InitConnection")
 	}
 
-	return data.(tl.Object), nil
+	return answerAsObject(data)
 }
 
 type InvokeWithLayerParams struct {
@@ -65,7 +87,7 @@ func (m *Client) InvokeWithLayer(layer int, query tl.Object) (tl.Object, error) 
 		return nil, errors.Wrap(err, "sending InvokeWithLayer")
 	}
 
-	return data.(tl.Object), nil
+	return answerAsObject(data)
 }
 
 //invokeWithoutUpdates#bf9459b7 {X:Type} query:!X = X;
@@ -89,5 +111,5 @@ func (m *Client) InvokeWithTakeout(takeoutID int, query tl.Object) (tl.Object, e
 		return nil, errors.Wrap(err, "sending InvokeWithLayer")
 	}
 
-	return data.(tl.Object), nil
+	return answerAsObject(data)
 }
